@@ -353,19 +353,21 @@ def make_emitter(spec, archive, seed, k, sibling=False, es_kwargs=None):
             archive, sigma=0.1, sigma_g=0.2, line_sigma=spec.get("line", 0.0), **start,
             measure_gradients=bool(spec.get("mg", False)), normalize_grad=bool(spec.get("norm", False)),
             operator_type=spec.get("op", "isotropic"), batch_size=spec.get("batch", 3), seed=s)
+    box = ([tuple(TIGHT_BOUNDS)] * D if spec.get("bounds") == "tight" else [(-3, 3)] * D if spec.get("bounds")
+           else None)
     if kind == "gauss":
         return _spy(E.GaussianEmitter)(archive, sigma=0.3, x0=x0, batch_size=spec.get("batch", 3), seed=s,
-                                       bounds=[(-3, 3)] * D if spec.get("bounds") else None)
+                                       bounds=box)
     if kind == "iso":
         return _spy(E.IsoLineEmitter)(archive, x0=x0, iso_sigma=0.05, line_sigma=0.3, batch_size=spec.get("batch", 3),
-                                      seed=s)
+                                      seed=s, bounds=box)
     if kind == "gen":
         if spec.get("op", "gaussian") == "gaussian":
             okw = {"sigma": 0.3, "seed": s}
         else:
             okw = {"iso_sigma": 0.05, "line_sigma": 0.3, "seed": s}
         return _spy(E.GeneticAlgorithmEmitter)(archive, x0=x0, operator=spec.get("op", "gaussian"),
-                                               operator_kwargs=okw, batch_size=spec.get("batch", 3))
+                                               operator_kwargs=okw, batch_size=spec.get("batch", 3), bounds=box)
     raise ValueError(kind)
 
 
@@ -1007,6 +1009,26 @@ def gop_emitter(rng, sk=None, opts=None):
     return e
 
 
+def harmonise_bounds(case):
+    """A bounded evolution strategy that restarts from an archive elite outside its bounds never gets a sample
+    accepted again (its resampling loop does not end; pycma raises instead) -- outside this property, reported.
+    So when one emitter of a pipeline has the tight bounds, every emitter gets them (all elites then lie inside);
+    if some emitter of the pipeline cannot take them (pycma_es, the DQD emitters), nobody does."""
+    ems = case["emitters"]
+    if not any(e.get("bounds") == "tight" for e in ems):
+        return case
+    if any(e["kind"] in ("ga", "gop") or e.get("es") == "pycma_es" for e in ems):
+        for e in ems:
+            if e.get("bounds") == "tight":
+                e["bounds"] = False if e["kind"] == "gauss" else None
+        return case
+    for e in ems:
+        e["bounds"] = "tight"
+        if e.get("es") == "openai_es" and (e.get("eskw") or {}).get("mirror_sampling", True):
+            e["eskw"] = {"mirror_sampling": False}
+    return case
+
+
 class Cycle:
     """Systematic enumeration of a list of combinations (`first` ones first, the others shuffled by the run's
     seed), then random."""
@@ -1046,6 +1068,7 @@ def strata(ctx):
     rr = [(es, per_es[es][j]) for j in range(len(RANKERS)) for es in es_order if j < len(per_es[es])]
     cyc_es = Cycle(ctx, "es", [(es, r) for es in ES_NAMES for r in RANKERS], first=es_first + rr)
     rd_forms = [0]
+    owed = [0]
     ga_es = list(ES_NAMES)
     r0.shuffle(ga_es)
     dqd_first = []
@@ -1091,7 +1114,11 @@ def strata(ctx):
             c["emitters"][0]["rform"] = ["class", "full", "abbr"][rd_forms[0] % 3]
             rd_forms[0] += 1
         if i % 3 == 1:
-            # every third case: the native CMA-ES (numba-compiled sampling helpers) under tight bounds
+            owed[0] += 1
+        if owed[0] and es != "pycma_es":
+            # every third case (the next one if that one is pycma, which takes no tight bounds): the native CMA-ES
+            # (numba-compiled sampling helpers) under tight bounds
+            owed[0] -= 1
             c["emitters"].append(es_emitter(rng, c["archive"]["kind"], "cma_es", tight=True))
         elif rng.random() < 0.5:
             c["emitters"].append(es_emitter(rng, c["archive"]["kind"]))
@@ -1099,7 +1126,7 @@ def strata(ctx):
         c["change"] = 1 if sk == "child" else rng.randrange(1, 4)
         c["sched"] = rng.choice(["plain", "bandit"])
         c["num_active"] = 1
-        return c
+        return harmonise_bounds(c)
 
     def g_dqd(rng):
         kind, es, ranker = cyc_dqd.next(rng)
@@ -1134,7 +1161,7 @@ def strata(ctx):
             add_mode = "batch"  # ProximityArchive.add_single returns length-1 arrays: the scheduler rejects them
         c["sched"], c["add_mode"], c["result_archive"] = sched, add_mode, ra
         c["num_active"] = rng.randint(1, len(pool) - 2) if sched == "bandit" else len(pool)
-        return c
+        return harmonise_bounds(c)
 
     kw_es = ["pycma_es", "lm_ma_es", "openai_es", "cma_es", "sep_cma_es", "pycma_es", "openai_es"]
     kw_i = [ctx.rng("eskw-rotation").randrange(len(kw_es))]
